@@ -184,7 +184,7 @@ class SimulationAlgorithm3DBase
     void SampleOnTSample()
     // sample as close a possible from t_samples.
         {
-        while(t>=t_samples[sample_pos] && sample_pos<n_samples)
+        while(sample_pos<n_samples && t>=t_samples[sample_pos])
             {
             Sample();
             sample_pos ++;
